@@ -645,11 +645,20 @@ def near_threshold(spec, tr):
         if rl['type'] == 'const':
             s = float(F(rl['start'][0]) * SI['Time'][rl['start'][1]])
             d = float(F(rl['dur'][0]) * SI['TimeInterval'][rl['dur'][1]])
-            for t, tu in zip(tr['time'], tr['time_units']):
+            own = sim.owner_at(spec, tr)
+            cb = (spec['load'].get('inplace') or [None, None, None])[2]
+            for j, (t, tu) in enumerate(zip(tr['time'], tr['time_units'])):
+                # every unit the instant has been expressed in: the one it was created in (the time step's), the one a
+                # load callback may have converted it to, the one it carries now
+                units = {tu, rl['start'][1], rl['dur'][1]}
+                if j < len(own) and own[j] is not None:
+                    units.add(spec['ops'][own[j]]['dt'][1])
+                if cb is not None:
+                    units.add(cb)
                 for edge, eu in ((s, rl['start'][1]), (s + d, rl['dur'][1])):
                     # in equal units an exact hit is decided identically by floats and rationals;
                     # across units the code converts first, so an exact hit is within rounding too
-                    mixed = not (tu == rl['start'][1] == rl['dur'][1])
+                    mixed = len(units) > 1
                     if (0 < abs(t - edge) or mixed) and abs(t - edge) <= 1e-9 * max(1.0, abs(edge)):
                         return 'instant within rounding of a timer window edge'
     _, nf = oracle_C16(spec, tr)
